@@ -45,9 +45,12 @@ VersPush == vers' = Append(vers, pts')
 AsSet(s) == {s[i] : i \in DOMAIN s}
 
 \* logged projection P = [nodes: Seq(<<id, node>>), free: Seq(node), next, count]
-RECURSIVE MkFn(_, _)
-MkFn(s, k) == IF k = 0 THEN <<>> ELSE MkFn(s, k - 1) @@ (s[k][1] :> s[k][2])
-PN(P) == MkFn(P.nodes, Len(P.nodes))
+\* (divide and conquer: the recursion depth stays logarithmic for batches of thousands of points)
+RECURSIVE MkFn(_, _, _)
+MkFn(s, lo, hi) == IF lo > hi THEN <<>>
+                   ELSE IF lo = hi THEN (s[lo][1] :> s[lo][2])
+                   ELSE LET mid == (lo + hi) \div 2 IN MkFn(s, lo, mid) @@ MkFn(s, mid + 1, hi)
+PN(P) == MkFn(P.nodes, 1, Len(P.nodes))
 PNodesFunctional(P) == Cardinality({P.nodes[k][1] : k \in DOMAIN P.nodes}) = Len(P.nodes)
 PF(P) == AsSet(P.free)
 
